@@ -191,6 +191,10 @@ def generate(rng, tier):
         if rng.random() < 0.5:
             plan.append({'import': rng.choice(world['modules'])['name'], 'kind': 'warn'})
     env = {'listing_seed': rng.randint(0, 9999)}
+    if rng.random() < 0.1 and not any(f.get('kind') == 'warn' for f in plan):
+        # the host runs with -W error (the code under test stays silent then: a warning of
+        # its own would be an exception of its own)
+        env['warnings_error'] = True
     if any(o.get('argv_from_process') for o in ops):
         env['argv'] = ['xdsim', rng.choice(['nightly', 'list', 'all', 'f0', 'f1:0', 'K0'])]
     return {'profile': ID, 'world': world, 'ops': ops, 'plan': plan, 'kinds': kinds, 'env': env}
